@@ -48,7 +48,7 @@ def represent(X, rep, offset=0):
         return full[offset:]
 
     cols = list(range(p))
-    scols = [f"c{chr(97 + j)}" for j in range(p)]
+    scols = ["zeta", "alpha", "mid", "b2", "a1", "q"][:p]  # deliberately not in sorted order
     Xf = X.astype(np.float64)
     if rep == "baseline":
         return pd.DataFrame(Xf, index=idx("range0"), columns=cols)
